@@ -12,6 +12,7 @@ type tierCfg struct {
 	batchSize int
 	checks    int // rapid checks per (world, mode)
 	timeoutS  int // per runner process
+	env       []string
 }
 
 type propCfg struct {
@@ -34,6 +35,7 @@ type propCfg struct {
 	real, stubs []string
 	// custom replaces the generic flow (C15)
 	custom func(pc *propCfg, tier string, seed int64) int
+	customReplay func(pc *propCfg, rf *replayFile, w *spec.World) int
 }
 
 var commonReal = []string{"sebuf plugins (fresh build of /repo working tree)", "protoc-gen-go", "generated Go server/client code",
@@ -82,6 +84,16 @@ func init() {
 		},
 		rule: "plans = 1-4 concurrent Go-client calls over the RPCs of a seeded world (values drawn per field kind incl. boundary values, content type per client and per call, base URL with/without trailing slash) executed on the simulated link under a drawn fragmentation / delay / interleaving schedule; distinct_nontrivial counts distinct (world, rpc, client>server, content type, outcome) tuples for which the delivery oracle compared request and response",
 		technique: "deterministic simulation: seeded schedules + fragmentation over a simulated HTTP link (real net/http codecs), delivery oracle per call",
+	}
+	props["C11"] = &propCfg{
+		id: "C11", level: "fault_enumeration", design: "DESIGN.md §4 C11", modes: []string{"server-link-faults", "server-garbage", "client-faults"},
+		quick: tierCfg{worlds: 8, batchSize: 16, checks: 120, timeoutS: 240, env: []string{"VERIF_SWEEP=1", "VERIF_SWEEP_MAX=2"}},
+		thor:  tierCfg{worlds: 64, batchSize: 32, checks: 500, timeoutS: 1800, env: []string{"VERIF_SWEEP=1", "VERIF_SWEEP_MAX=40"}},
+		genCfg: func(seed uint64, name string) gen.Config {
+			return gen.Config{Seed: seed, Name: name, Allow: safeAllow()}
+		},
+		rule: "server runs: a valid Go-client or contract-client request with one fault (truncate / reset / stall at a drawn body or header offset, duplicate delivery, drop, write error) placed inside the in-flight message, plus mutated bodies (truncated JSON, token swaps, duplicate keys, deep nesting, huge numbers, invalid UTF-8, invalid wire data) under 9 content types; client runs: rogue upstream responses and response-direction faults with virtual-clock deadlines; sweeps enumerate every truncation and reset offset of the base plan's body; distinct_nontrivial counts distinct (world, rpc, mode, codec family, fault or body kind, dispatched?, status) tuples on which an oracle was evaluated",
+		technique: "deterministic simulation with fault injection on a simulated HTTP link (truncate/reset/stall/dup/drop/write-error/rogue upstream, virtual-clock deadlines) + single-fault offset sweeps",
 	}
 }
 
